@@ -1043,7 +1043,10 @@ func (p *Prov) justify1(s *Sink) string {
 			negContainer++
 		}
 	}
-	if (tbl("Pipeline") || tbl("OperatorArray")) && negContainer >= 1 {
+	// (only under Pipeline: the operand of an OperatorArray key that is not an array - a single
+	// clause document where Atlas Search also accepts a list, a scalar - is a value like the
+	// elements of the array would be, and has to be walked: hunt 4, F-57)
+	if tbl("Pipeline") && negContainer >= 1 {
 		return "J5:shape-mismatch"
 	}
 	if s.Kind == "return" && negContainer >= 2 {
